@@ -72,13 +72,19 @@ Definition svc_of_route (r : route) : str :=
   | [] => []
   | t :: rest => if forallb (fun t' => beq (t_svc t') (t_svc t)) rest then t_svc t else []
   end.
-Definition matcher_of (k : N) : Lookup.matcher := if k =? 0 then Lookup.MPrefix else Lookup.MIPrefix.
+Definition matcher_of (k : N) : Lookup.matcher :=
+  if k =? 0 then Lookup.MPrefix else if k =? 1 then Lookup.MIPrefix else Lookup.MGlob.
 
-(* one request: host, TLS, path, matcher, glob matching disabled *)
-Record req := Req { q_host : str; q_tls : bool; q_uri : str; q_matcher : N; q_globoff : bool }.
+(* one request: host, TLS, path, matcher (0 prefix, 1 iprefix, 2 glob), glob host matching disabled,
+   the round-robin cursor every route starts from, and whether it goes through Table.LookupHost
+   (host = a table key, path "/", prefix matcher) instead of Table.Lookup *)
+Record req := Req { q_host : str; q_tls : bool; q_uri : str; q_matcher : N; q_globoff : bool;
+                    q_total : N; q_direct : bool }.
 
-Definition look (e : env) (bt : btable) (q : req) (total : N) : outcome lobs :=
-  match lookup_full (hostglob_of e) bt (q_host q) (q_tls q) (q_uri q) (matcher_of (q_matcher q)) (q_globoff q) total with
+Definition look (e : env) (bt : btable) (q : req) (_ : N) : outcome lobs :=
+  match (if q_direct q then lookup_host bt (q_host q) (q_total q)
+         else lookup_full (hostglob_of e) bt (q_host q) (q_tls q) (q_uri q) (matcher_of (q_matcher q))
+                          (q_globoff q) (q_total q)) with
   | Ok None => Ok None
   | Ok (Some (h, p, _)) =>
       Ok (Some (h, p, match List.find (fun br : broute => beq (r_path (fst br)) p) (bassoc bt h) with
@@ -121,17 +127,26 @@ Inductive case :=
 | CWatch (e : env) (texts : list str) (events : list (bool * nat * bool))
          (cands : list (nat * nat * outcome tobs)) (impl : list (option tobs))
 (* a forced schedule on the real cell *)
-| CSched (e : env) (texts : list str) (sched : list sact) (impl : list (outcome lobs)).
+| CSched (e : env) (texts : list str) (sched : list sact) (impl : list (outcome lobs))
+(* a sequence of polls of the real custom backend: per poll None = a body json cannot decode into a
+   definition list, Some p = the decoded pointer (None = null); what the real NewTableCustom says about
+   each (Err 0 for an undecodable body); route.GetTable() after each poll (None = the process died) *)
+| CCustomPolls (e : env) (bodies : list (option (option (list (option def)))))
+               (verdicts : list (outcome tobs)) (impl : list (option tobs))
+(* route.ParseAliases(text): the register= values, an error kind, or a recovered panic *)
+| CAliases (e : env) (text : str) (impl : outcome (list str)).
 
 Definition check_build (e : env) (bo : outcome btable) (ds : outcome (list def))
            (impl : outcome tobs) (lookups : list (req * outcome lobs)) (in_dom nontrivial : bool) : N :=
-  if negb in_dom then v_agree_trivial else
+  (* the property's own demand first: a panic of the real code is a failing input whether or not the
+     input is inside the modelled domain *)
+  let spec := not_panic impl && forallb (fun ql => not_panic (snd ql)) lookups in
+  if negb in_dom then (if spec then v_agree_trivial else v_disagree_spec_fails) else
   let same_b := out_eqb tobs_eqb impl (omap obs_of bo) in
   let same_l := match bo with
                 | Ok bt => forallb (fun ql => out_eqb lobs_eqb (snd ql) (look e bt (fst ql) 0)) lookups
                 | _ => match lookups with [] => true | _ => false end
                 end in
-  let spec := not_panic impl && forallb (fun ql => not_panic (snd ql)) lookups in
   verdict_lazy (same_b && same_l) spec nontrivial
     (fun _ => None).
 
@@ -189,6 +204,50 @@ Definition check_case (c : case) : N :=
                              | (_, _, _, None) => Err 99        (* a lookup before any GetTable: not generated *)
                              end) res in
       let same := list_eqb (out_eqb lobs_eqb) impl m in
-      verdict same same None
+      (* the specification, without the machine: the k-th action, if a lookup of reader r, is answered
+         from the table [current] gives for the schedule up to r's last GetTable before k *)
+      let expected :=
+          flat_map (fun k => match nth_error acts k with
+                             | Some (ALookup r q c) =>
+                                 [match List.find (fun j => match nth_error acts j with
+                                                            | Some (ALoad r') => Nat.eqb r' r
+                                                            | _ => false end) (rev (seq 0 k)) with
+                                  | Some j => look e (current btable req N [] (firstn j acts)) q c
+                                  | None => Err 99
+                                  end]
+                             | _ => []
+                             end) (seq 0 (length acts)) in
+      let spec := list_eqb (out_eqb lobs_eqb) impl expected in
+      verdict same spec None
         (existsb (fun a => match a with SSet _ => true | _ => false end) sched)
+  | CCustomPolls e bodies verdicts impl =>
+      (* the model: custom_step per poll (an undecodable body stores nothing) *)
+      let fix go (cell : option btable) (bs : list (option (option (list (option def))))) : list (option tobs) :=
+          match bs with
+          | [] => []
+          | b :: bs' =>
+              let cell' := match cell with
+                           | None => None
+                           | Some c => match b with
+                                       | None => Some c
+                                       | Some o => custom_step (fun _ => cb e o) c []
+                                       end
+                           end in
+              option_map obs_of cell' :: go cell' bs'
+          end in
+      let same := list_eqb (opt_eqb tobs_eqb) impl (go (Some []) bodies) in
+      (* the specification on the implementation's own observables: after every poll the active table
+         is the one of the last poll the real NewTableCustom accepted; the process never dies *)
+      let fix exp (cur : tobs) (vs : list (outcome tobs)) : list (option tobs) :=
+          match vs with
+          | [] => []
+          | v :: vs' => let cur' := match v with Ok o => o | _ => cur end in Some cur' :: exp cur' vs'
+          end in
+      let spec := list_eqb (opt_eqb tobs_eqb) impl (exp [] verdicts)
+                  && forallb (fun v => not_panic v) verdicts in
+      verdict same spec None (existsb (fun v => match v with Err _ => true | _ => false end) verdicts)
+  | CAliases e text impl =>
+      let m := parse_aliases (pweight_of e) text in
+      verdict (out_eqb (list_eqb beq) impl m) (not_panic impl) None
+              (match m with Ok (_ :: _) => true | Err _ => true | _ => false end)
   end.
